@@ -2869,9 +2869,18 @@ def c14(idx: Index, rep: Report, tier: str) -> None:
     cfg = cfg_of(iw)
     pushes = [nd for nd, c in cfg_nodes_with_call(cfg, "append") if norm(c.func.value) == "self.stack"]
     n = 0
-    for h in [x for x in ast.walk(iw.node) if isinstance(x, ast.ExceptHandler)]:
+    handlers = [(x, False) for x in ast.walk(iw.node) if isinstance(x, ast.ExceptHandler)]
+    dagc_ = idx.cls("model.walkers.dag.DagWalker")
+    for c in walk_no_nested(iw.node):  # the try/except may sit in a private helper that iter_walk calls
+        if isinstance(c, ast.Call) and isinstance(c.func, ast.Attribute) and norm(c.func.value) == "self" and c.func.attr.startswith("_") and c.func.attr in dagc_.methods and c.func.attr != "_process_stack":
+            handlers += [(x, True) for x in ast.walk(dagc_.methods[c.func.attr].node) if isinstance(x, ast.ExceptHandler)]
+    for h, in_helper in handlers:
         for st in h.body:
             for d in ast.walk(st):
+                if isinstance(d, ast.Delete) and in_helper:
+                    n += 1
+                    rep.inconclusive(rule, "the stack is cut back inside a helper: the depth it is given is not tracked across the call", iw.loc(), construct=norm(d), function=iw.qualname)
+                    continue
                 if isinstance(d, ast.Delete):
                     for t in d.targets:
                         if isinstance(t, ast.Subscript) and norm(t.value) == "self.stack" and isinstance(t.slice, ast.Slice):
